@@ -602,20 +602,26 @@ fn oracle_re(attrs: &[u8], reply: &str, four: bool) -> Result<(), String> {
     // attributes read four octets wide), then the property as it stands.
     let passes: &[Read] = if four { &[Read::Same] } else { &[Read::Widened, Read::Same] };
     for &read in passes {
-        // route 1: every attribute, in order
-        judge_list_w("direct", &src, &d, four, read)?;
-        if dn.parse::<usize>().ok() != Some(d.len()) { return Err(format!("direct: compose_len sum {} but {} octets written", dn, d.len())); }
-        // route 2: the attribute map
-        judge_list_w("map", &mv, &m, four, read)?;
-        if mn.parse::<usize>().ok() != Some(m.len()) { return Err(format!("map: bytes_len {} but {} octets written", mn, m.len())); }
-        // route 3: the builder's PDU
-        if b.len() < 23 || b[..16].iter().any(|x| *x != 0xff) || b[18] != 2 { return Err("builder: not an UPDATE header".into()); }
-        if u16::from_be_bytes([b[16], b[17]]) as usize != b.len() { return Err("builder: header length differs from the octets written".into()); }
-        if b.len() > MAX_PDU { return Err("builder: PDU over 4096 octets".into()); }
-        if b[19] != 0 || b[20] != 0 { return Err("builder: withdrawn routes in a PDU without NLRI".into()); }
-        if u16::from_be_bytes([b[21], b[22]]) as usize != b.len() - 23 { return Err("builder: attribute length field differs from the octets written".into()); }
-        judge_list_w("builder", &mv, &b[23..], four, read)?;
-        if b[23..] != m[..] { return Err("builder and map routes wrote different octets".into()); }
+        // what fails only under `Same` in a two-octet session (everything else having passed under `Widened`) is
+        // exactly the width of the AS numbers written: known finding K9, tagged so that only it is matched
+        let tag = |e: String| if !four && read == Read::Same { format!("[K9] two-octet session: {}", e) } else { e };
+        (|| -> Result<(), String> {
+            // route 1: every attribute, in order
+            judge_list_w("direct", &src, &d, four, read)?;
+            if dn.parse::<usize>().ok() != Some(d.len()) { return Err(format!("direct: compose_len sum {} but {} octets written", dn, d.len())); }
+            // route 2: the attribute map
+            judge_list_w("map", &mv, &m, four, read)?;
+            if mn.parse::<usize>().ok() != Some(m.len()) { return Err(format!("map: bytes_len {} but {} octets written", mn, m.len())); }
+            // route 3: the builder's PDU
+            if b.len() < 23 || b[..16].iter().any(|x| *x != 0xff) || b[18] != 2 { return Err("builder: not an UPDATE header".into()); }
+            if u16::from_be_bytes([b[16], b[17]]) as usize != b.len() { return Err("builder: header length differs from the octets written".into()); }
+            if b.len() > MAX_PDU { return Err("builder: PDU over 4096 octets".into()); }
+            if b[19] != 0 || b[20] != 0 { return Err("builder: withdrawn routes in a PDU without NLRI".into()); }
+            if u16::from_be_bytes([b[21], b[22]]) as usize != b.len() - 23 { return Err("builder: attribute length field differs from the octets written".into()); }
+            judge_list_w("builder", &mv, &b[23..], four, read)?;
+            if b[23..] != m[..] { return Err("builder and map routes wrote different octets".into()); }
+            Ok(())
+        })().map_err(tag)?;
     }
     Ok(())
 }
